@@ -242,6 +242,24 @@ func Time(unixDigits string, offsetSec int) time.Time {
 	return time.Unix(u, 0).In(time.FixedZone("VPZ", offsetSec))
 }
 
+// Capture runs f with os.Stdout redirected to a file and returns what was printed.
+func Capture(f func()) string {
+	tmp, err := os.CreateTemp("", "vpout")
+	if err != nil {
+		panic(err)
+	}
+	defer os.Remove(tmp.Name())
+	old := os.Stdout
+	os.Stdout = tmp
+	func() {
+		defer func() { os.Stdout = old }()
+		f()
+	}()
+	tmp.Close()
+	b, _ := os.ReadFile(tmp.Name())
+	return string(b)
+}
+
 func Run(argv ...string) Result {
 	bin := os.Getenv("VP_GOIT")
 	args := append([]string{}, argv...)
